@@ -29,6 +29,9 @@ var (
 	fChild   = flag.String("sim.childbin", "", "binary to use for per-candidate child processes when minimising (race oracle)")
 	fFaults  = flag.String("sim.faults", "", "override: on | off (default: per-run swarm choice)")
 	fInputs  = flag.String("sim.inputs", "", "comma separated list of worker output prefixes (merge)")
+	fCoarse  = flag.String("sim.coarse", "", "on: pre-empt tasks at operation boundaries only (fallback when the code under test blocks for real)")
+	fPrelude = flag.Int("sim.prelude", 0, "record: also execute and record this many preceding runs of the same worker (indices idx-k*stride)")
+	fOrder   = flag.String("sim.order", "", "override C19 phase order: conc-first | ref-first")
 )
 
 var simExit = 0
@@ -124,6 +127,7 @@ func TestSim(t *testing.T) {
 	if *fMode == "" {
 		t.Skip("no -sim.mode")
 	}
+	CoarseMode = *fCoarse == "on"
 	loadSites()
 	switch *fMode {
 	case "batch":
@@ -172,12 +176,29 @@ func execOne(t *testing.T, p Prop, idx int) (*Plan, *Outcome) {
 }
 
 func applyOverrides(plan *Plan) {
+	if plan.Config == nil {
+		plan.Config = map[string]string{}
+	}
 	if *fFaults != "" {
-		if plan.Config == nil {
-			plan.Config = map[string]string{}
-		}
 		plan.Config["faults"] = *fFaults
 	}
+	if *fCoarse == "on" {
+		plan.Config["coarse"] = "on"
+	}
+	if *fOrder != "" {
+		plan.Config["order"] = *fOrder
+	}
+}
+
+// execWithPrelude executes the prelude runs of a plan (outcomes ignored) and
+// then the plan itself, all in this process.
+func execWithPrelude(p Prop, plan *Plan, x *Ctx) *Outcome {
+	for _, pre := range plan.Prelude {
+		q := pre.Clone()
+		q.Prelude = nil
+		safeExec(p, q, &Ctx{Replay: true, T: x.T})
+	}
+	return safeExec(p, plan, x)
 }
 
 // safeExec turns a panic of the harness itself into exit 2: it is never a
@@ -239,14 +260,17 @@ func runBatch(t *testing.T) {
 	progress := *fOut + ".progress"
 	seenClass := map[string]int{}
 	stride := max(1, *fStride)
+	lastProgress := time.Time{}
 	for idx := *fFrom; idx < *fTo; idx += stride {
 		if *fBudget > 0 && time.Since(start).Seconds() > *fBudget {
 			w.CutShort = true
 			break
 		}
-		if RaceBuild {
-			// the run in progress, for the parent, should the race detector end this process
+		if RaceBuild || time.Since(lastProgress) > 500*time.Millisecond {
+			// the run in progress, for the parent: should the race detector end this process,
+			// or should the code under test block for real (stall watchdog)
 			_ = os.WriteFile(progress, []byte(fmt.Sprint(idx)), 0o644)
+			lastProgress = time.Now()
 		}
 		plan, out := execOne(t, p, idx)
 		w.LastIndex = idx
@@ -365,7 +389,18 @@ func loadPlan(path string) *Plan {
 // (including the executed schedule) plus what was observed.
 func runRecord(t *testing.T) {
 	p := prop()
+	var prelude []*Plan
+	stride := max(1, *fStride)
+	for k := *fPrelude; k >= 1; k-- {
+		idx := *fFrom - k*stride
+		if idx < 0 {
+			continue
+		}
+		pre, _ := execOne(t, p, idx)
+		prelude = append(prelude, pre)
+	}
 	plan, out := execOne(t, p, *fFrom)
+	plan.Prelude = prelude
 	vr := ViolatingRun{Plan: plan, Violations: out.Violations}
 	b, _ := json.MarshalIndent(vr, "", " ")
 	if err := os.WriteFile(*fOut, b, 0o644); err != nil {
@@ -385,7 +420,7 @@ func runReplay(t *testing.T) {
 	if RaceBuild {
 		_ = os.WriteFile(*fOut+".progress", []byte(fmt.Sprint(plan.Index)), 0o644)
 	}
-	out := safeExec(p, plan, &Ctx{Replay: true, T: t})
+	out := execWithPrelude(p, plan, &Ctx{Replay: true, T: t})
 	want := ""
 	if plan.Expect != nil {
 		want = plan.Expect.Class
@@ -418,7 +453,7 @@ func reproduces(t *testing.T, p Prop, plan *Plan, class string, tmp string) bool
 		_ = os.WriteFile(path, b, 0o644)
 		return childReproduces(path, class, tmp)
 	}
-	out := safeExec(p, plan.Clone(), &Ctx{Replay: true, T: t})
+	out := execWithPrelude(p, plan.Clone(), &Ctx{Replay: true, T: t})
 	for _, v := range out.Violations {
 		if v.Class == class {
 			return true
@@ -473,7 +508,7 @@ func runMinimise(t *testing.T) {
 	min := Minimise(plan, test, deadline)
 	// final detail from an in-process execution when possible
 	if *fChild == "" {
-		out := safeExec(p, min.Clone(), &Ctx{Replay: true, T: t})
+		out := execWithPrelude(p, min.Clone(), &Ctx{Replay: true, T: t})
 		for _, v := range out.Violations {
 			if v.Class == class {
 				min.Expect = &Expect{Oracle: v.Oracle, Class: v.Class, Detail: v.Detail}
